@@ -28,12 +28,16 @@ type stats struct {
 	kinds                                                map[string]bool
 	keyed, origin, element, deleteAfterSync, multiTarget bool
 	sharedServer, sharedRequest, cliChecked, retried     bool
-	cliKeyedQuery, replaceNoti                           bool
+	cliKeyedQuery, replaceNoti, cliSlashQuery            bool
 	leaves                                               int
 	// what the scripts contain beyond single updates and deletes
 	atomic, atomicResent, atomicTailChanged, group, groupResent, padded, breakLoses bool
 	fill, breaks                                                                    int
-	breakVia, aimed                                                                 map[string]bool
+	breakVia, aimed, breakCode                                                      map[string]bool
+	collectorSideLoses, recvTimeout, slashPath                                      bool
+	// client queries that address part of a target, one Query value used for several subscriptions
+	narrowObserver, slashQuery, bracketQuery, onceFirst, reconnectObserver, cutsDone, cutNoEffect, resubscribed bool
+	reuse, reuseSlash                                                                                            bool
 	lastAwait                                                                       string // the op before the one being interpreted was an await for this event
 	aimedBig                                                                        bool
 	// what the observers that lived while the scripts played went through (schedule dependent; labels only)
@@ -65,6 +69,7 @@ func (s *stats) labels() []string {
 	add(s.sharedRequest, "targets-share-a-request")
 	add(s.cliChecked, "cli-three-invocations-compared")
 	add(s.cliKeyedQuery, "cli-query-with-list-key")
+	add(s.cliSlashQuery, "cli-query-with-slash-in-key-value")
 	add(s.replaceNoti, "notification-with-delete-and-updates")
 	add(s.retried, "rerun-after-slow-quiescence")
 	add(s.leaves == 0, "empty-final-state")
@@ -85,6 +90,22 @@ func (s *stats) labels() []string {
 	}
 	add(s.aimedBig, "stream-break-at-registration-or-first-update-of-a-walk-over>=1000-leaves")
 	add(s.breakLoses, "leaves-lost-while-disconnected")
+	add(s.collectorSideLoses, "leaves-lost-across-a-break-made-by-the-collector")
+	for v := range s.breakCode {
+		l = append(l, "stream-ends-with-status-"+v)
+	}
+	add(s.recvTimeout, "target-with-receive-timeout")
+	add(s.slashPath, "path-element-or-key-with-slash")
+	add(s.narrowObserver, "observer-with-query-paths")
+	add(s.slashQuery, "observer-query-with-slash")
+	add(s.bracketQuery, "observer-query-with-key-syntax")
+	add(s.onceFirst, "observer-once-then-stream-with-one-query-value")
+	add(s.reconnectObserver, "reconnecting-observer")
+	add(s.cutsDone, "observer-connection-cut")
+	add(s.cutNoEffect, "observer-connection-cut-without-effect")
+	add(s.resubscribed, "observer-subscribed-again-with-the-same-query-value")
+	add(s.reuse, "one-query-value-for-several-subscriptions-after-quiescence")
+	add(s.reuseSlash, "reused-query-value-with-slash")
 	add(s.reconnected, "collector-subscribed-again")
 	add(s.observers > 0, "observers-while-the-scripts-play")
 	add(s.observers >= 4, "observers>=4")
@@ -146,11 +167,12 @@ func scalarOf(v gn.Val) interface{} {
 // reference interprets the scripts: key (with target) -> Go scalar.
 func reference(sc *Scenario, st *stats) map[string]interface{} {
 	ref := map[string]interface{}{}
-	st.kinds, st.breakVia, st.aimed = map[string]bool{}, map[string]bool{}, map[string]bool{}
+	st.kinds, st.breakVia, st.aimed, st.breakCode = map[string]bool{}, map[string]bool{}, map[string]bool{}, map[string]bool{}
 	servers, requests := map[int]int{}, map[int]int{}
 	for _, tg := range sc.Targets {
 		servers[tg.Server]++
 		requests[tg.Request]++
+		st.recvTimeout = st.recvTimeout || tg.RecvTimeoutMs > 0
 		m := newModel()
 		for _, o := range tg.Ops {
 			m.apply(o, st)
@@ -196,49 +218,74 @@ func (i *inconclusive) Error() string { return i.msg }
 // observe subscribes through the collector with the client library's cache
 // and returns its leaves once the sentinel of every target in scope arrived.
 func observe(addr, target string, want map[string]string, timeout time.Duration) (client.Leaves, error) {
+	return subscribeView(baseQuery(addr, target, nil, client.Stream), want, timeout)
+}
+
+func baseQuery(addr, target string, qs []QPath, typ client.Type) client.Query {
+	return client.Query{Addrs: []string{addr}, Target: target, Queries: clientPaths(qs), Type: typ, Timeout: 10 * time.Second, TLS: &tls.Config{InsecureSkipVerify: true}}
+}
+
+// subscribeView makes ONE subscription with the Query value it is given (the caller may have used the same
+// value - same Queries slices - before and may use it again) through a new cache client and returns the view:
+// STREAM: once the sync marker and the sentinel of every target in scope arrived; ONCE: when it completed.
+func subscribeView(q client.Query, want map[string]string, timeout time.Duration) (client.Leaves, error) {
 	c := client.New()
 	defer c.Close()
+	target := q.Target
 	var mu sync.Mutex
 	seen := map[string]bool{}
 	synced := false
 	done := make(chan struct{})
 	var once sync.Once
-	q := client.Query{Addrs: []string{addr}, Target: target, Queries: []client.Path{{"*"}}, Type: client.Stream, Timeout: 10 * time.Second,
-		TLS: &tls.Config{InsecureSkipVerify: true},
-		NotificationHandler: func(n client.Notification) error {
-			// Quiescence: the sentinel of every target in scope AND the sync marker.
-			// Updates made after the subscription registered reach it in order, so the
-			// sentinel vouches for them; the initial walk has no order (the sentinel may
-			// come out of it before other leaves), so the sync marker vouches for the walk.
-			mu.Lock()
-			defer mu.Unlock()
-			switch u := n.(type) {
-			case client.Sync:
-				synced = true
-			case client.Update:
-				if len(u.Path) >= 3 && u.Path[len(u.Path)-1] == sentinelName {
-					if s, _ := u.Val.(string); s == want[u.Path[0]] {
-						seen[u.Path[0]] = true
-					}
+	q.NotificationHandler = func(n client.Notification) error {
+		// Quiescence: the sentinel of every target in scope AND the sync marker.
+		// Updates made after the subscription registered reach it in order, so the
+		// sentinel vouches for them; the initial walk has no order (the sentinel may
+		// come out of it before other leaves), so the sync marker vouches for the walk.
+		mu.Lock()
+		defer mu.Unlock()
+		switch u := n.(type) {
+		case client.Sync:
+			synced = true
+		case client.Update:
+			if len(u.Path) >= 3 && u.Path[len(u.Path)-1] == sentinelName {
+				if s, _ := u.Val.(string); s == want[u.Path[0]] {
+					seen[u.Path[0]] = true
 				}
 			}
-			if synced && len(seen) == len(want) {
-				once.Do(func() { close(done) })
-			}
-			return nil
-		}}
+		}
+		if synced && len(seen) == len(want) {
+			once.Do(func() { close(done) })
+		}
+		return nil
+	}
 	ctx, cancel := context.WithCancel(context.Background())
 	defer cancel()
 	errC := make(chan error, 1)
 	go func() { errC <- c.Subscribe(ctx, q, gclient.Type) }()
+	timer := time.After(timeout)
+	hung := func() (client.Leaves, error) {
+		mu.Lock()
+		defer mu.Unlock()
+		return nil, &inconclusive{msg: fmt.Sprintf("subscription for target %q: sentinel seen for %v of %d targets after %v", target, seen, len(want), timeout), hang: true}
+	}
+	if q.Type == client.Once {
+		select {
+		case err := <-errC:
+			if err != nil {
+				return nil, &violation{"rpc-error", fmt.Sprintf("ONCE subscription for target %q through the collector ended: %v", target, err)}
+			}
+			return c.Leaves(), nil
+		case <-timer:
+			return hung()
+		}
+	}
 	select {
 	case <-done:
 	case err := <-errC:
 		return nil, &violation{"rpc-error", fmt.Sprintf("subscription for target %q through the collector ended: %v", target, err)}
-	case <-time.After(timeout):
-		mu.Lock()
-		defer mu.Unlock()
-		return nil, &inconclusive{msg: fmt.Sprintf("subscription for target %q: sentinel seen for %v of %d targets after %v", target, seen, len(want), timeout), hang: true}
+	case <-timer:
+		return hung()
 	}
 	// the handler runs after the cache was updated: everything before the sentinel is in
 	return c.Leaves(), nil
@@ -249,7 +296,7 @@ func fmtScalar(v interface{}) string { return fmt.Sprintf("%#v", v) }
 // compareLeaves checks the observer's view of the targets in scope against the reference.
 var debugDump bool
 
-func compareLeaves(what string, leaves client.Leaves, ref map[string]interface{}, scope map[string]bool) error {
+func compareLeaves(what string, leaves client.Leaves, ref map[string]interface{}, scope map[string]bool, qs ...QPath) error {
 	if debugDump {
 		for _, l := range leaves {
 			fmt.Printf("LEAF %q = %#v\n", l.Path, l.Val)
@@ -257,14 +304,14 @@ func compareLeaves(what string, leaves client.Leaves, ref map[string]interface{}
 	}
 	got := map[string]interface{}{}
 	for _, l := range leaves {
-		if len(l.Path) < 2 || !scope[l.Path[0]] || l.Path[1] == "meta" || l.Path[len(l.Path)-1] == sentinelName {
+		if len(l.Path) < 2 || !scope[l.Path[0]] || l.Path[1] == "meta" || isHarnessLeaf(l.Path[len(l.Path)-1]) {
 			continue
 		}
 		got[gn.Key(l.Path)] = l.Val
 	}
 	var diffs []string
 	for k, w := range ref {
-		if !scope[gn.Unkey(k)[0]] {
+		if p := gn.Unkey(k); !scope[p[0]] || !addressed(qs, p) {
 			continue
 		}
 		g, ok := got[k]
@@ -401,6 +448,11 @@ func checkCLI(e *env, dir, addr, target string, query []gn.Elem, ref map[string]
 		if len(el.Keys) > 0 {
 			st.cliKeyedQuery = true
 		}
+		for _, v := range el.Keys {
+			if strings.Contains(v, "/") {
+				st.cliSlashQuery = true
+			}
+		}
 	}
 	for k, v := range ref {
 		p := gn.Unkey(k)
@@ -447,7 +499,7 @@ func checkCLI(e *env, dir, addr, target string, query []gn.Elem, ref map[string]
 				} else {
 					p = strings.Split(k, "/")
 				}
-				if len(p) < 2 || p[1] == "meta" || p[len(p)-1] == sentinelName {
+				if len(p) < 2 || p[1] == "meta" || isHarnessLeaf(p[len(p)-1]) {
 					continue
 				}
 				clean[k] = v
@@ -517,6 +569,9 @@ func runOnce(e *env, workDir string, sc *Scenario, st *stats) error {
 		s := servers[tg.Server%len(servers)]
 		s.addScript(tg, id)
 		cfg.Target[tg.Name] = &tpb.Target{Addresses: []string{s.addr}, Request: fmt.Sprintf("req%d", tg.Request%sc.Requests)}
+		if tg.RecvTimeoutMs > 0 {
+			cfg.Target[tg.Name].Meta = map[string]string{"receive_timeout": fmt.Sprintf("%dms", tg.RecvTimeoutMs)}
+		}
 		want[tg.Name] = id
 	}
 	b, _ := prototext.Marshal(cfg)
@@ -531,7 +586,29 @@ func runOnce(e *env, workDir string, sc *Scenario, st *stats) error {
 	}
 	defer col.stop()
 	h.change(func() { colAddr = col.addr })
+	// from here on the streams end because the harness tears the case down
+	defer h.change(func() { h.over = true })
 
+	err = judge(e, dir, id, sc, st, ref, h, fr, col, servers, want)
+	// A target configured with a receive timeout depends on the scripted target's heartbeats arriving in time:
+	// a machine that stalls for longer makes the collector drop and re-read the target's state at an instant
+	// the script did not choose. A verdict against the code therefore needs positive evidence that this did
+	// not happen around the observation that produced it; without the evidence the case has no verdict.
+	switch err.(type) {
+	case *violation:
+		if inc := h.confirmStreams(col.addr); inc != nil {
+			return inc
+		}
+	case *inconclusive:
+		if h.unscriptedEnds() > 0 {
+			err.(*inconclusive).hang = false
+		}
+	}
+	return err
+}
+
+// judge is the case proper: everything between "the collector runs" and the verdict.
+func judge(e *env, dir, id string, sc *Scenario, st *stats, ref map[string]interface{}, h *hub, fr *flowRun, col *collectorProc, servers []*scriptedServer, want map[string]string) error {
 	// observers that live while the scripts play (none in the "random" part)
 	fr.start(col.addr)
 	if err := fr.wait(col); err != nil {
@@ -566,6 +643,32 @@ func runOnce(e *env, workDir string, sc *Scenario, st *stats) error {
 	if err := compareLeaves("client cache subscribed to *", leaves, ref, all); err != nil {
 		return err
 	}
+	// one client.Query value (paths as strings) used for several subscriptions in a row
+	for i, ru := range sc.Reuse {
+		target, scope, rwant := "*", all, want
+		if ru.Scope >= 0 {
+			target = sc.Targets[ru.Scope%len(sc.Targets)].Name
+			scope, rwant = map[string]bool{target: true}, map[string]string{target: id}
+		}
+		q := baseQuery(col.addr, target, ru.Queries, client.Once)
+		for j, mode := range ru.Modes {
+			q.Type = client.Once
+			if mode == "stream" {
+				q.Type = client.Stream
+			}
+			leaves, err := subscribeView(q, rwant, 20*time.Second)
+			if err != nil {
+				return err
+			}
+			what := fmt.Sprintf("client cache of subscription %d of %d (%s) made with one client.Query value, target %s, paths %s", j+1, len(ru.Modes), mode, target, describeQueries(ru.Queries))
+			if err := compareLeaves(what, leaves, ref, scope, ru.Queries...); err != nil {
+				return err
+			}
+		}
+		st.reuse = true
+		st.reuseSlash = st.reuseSlash || slashInQueries(ru.Queries)
+		_ = i
+	}
 	// the request each target received was customised with its name
 	for _, tg := range sc.Targets {
 		s := servers[tg.Server%len(servers)]
@@ -597,7 +700,9 @@ func runOnce(e *env, workDir string, sc *Scenario, st *stats) error {
 				continue
 			}
 			all := append(append([]gn.Elem{}, u.Prefix...), u.Path...)
-			if len(all) == 0 {
+			if len(all) == 0 || strings.Contains(all[0].Name, "/") {
+				// the -q flag splits at '/' outside [..]: an element NAME with a slash cannot be given that way
+				// (a key value can, and is)
 				continue
 			}
 			origin := u.Origin
